@@ -168,6 +168,9 @@ class CheckC05(core.Check):
                         )
                         return r
                     rej += 1
+            if e.obs().get("sn") != "0":
+                r.viol("C05|sending-nonce-moved|%s" % kind, "%s/%s dir %d: a delivery (%s %d -> %s) changed the receiver's own sending nonce to %s; schedule %s" % (ci, be, d, kind, v, e.res, e.obs().get("sn"), spec))
+                return r
             got = e.obs().get("rn")
             if got != str(rn):
                 r.viol(
